@@ -235,6 +235,11 @@ def fusedDivisions (full : List Int) (P : List Nat) (step : Nat) : Option (List 
       | some los, some hi => some (los ++ [hi])
       | _, _ => none
 
+/-- `FusedIO._divisions` as the code is now (D71): a reordered or repeated selection reports unknown divisions
+    (`some none`), an ascending one the bucket bounds; `none` = IndexError -/
+def fusedDivisionsGuarded (full : List Int) (P : List Nat) (step : Nat) : Option (Option (List Int)) :=
+  if strictAsc P then (fusedDivisions full P step).map some else some none
+
 /-- `_task(index)`: `(methods.concat, [expr._filtered_task(i) for i in bucket])` -/
 def fusedRows (P : List Nat) (step : Nat) (parts : Nat → List Row) (j : Nat) : List Row :=
   match (buckets P step)[j]? with
